@@ -1599,3 +1599,168 @@ example :
     wquiescent W2 = true ∧ W2.envs.map (·.env.st) = [.CONFIGURED, .RUNNING] ∧
     W2.roster.map (fun t => t.st) = [.ERROR, .STANDBY, .STANDBY, .STANDBY, .STANDBY, .STANDBY] := by
   decide
+
+/-! ## C03: whatever the labels of the messages say — THAT environment goes to ERROR
+
+  Every message about a task carries the label `environmentId` = the environment the executor
+  launched the task FOR (stamped once). For a task that was released by that environment
+  (destroyed with keepTasks) and belongs to a later one now (claimed: reuseUnlockedTasks), or
+  whose executor sends no such label, the label names no environment of the world — or
+  another live one. The property speaks about the environment the task belongs to. -/
+
+/-- `codeCfg.envByTask` IS the TASK_INTERNAL_ERROR case of handleDeviceEvent: exactly one call
+    `envs.environment(X)` in the case; X is `<t>.GetEnvironmentId()` with `<t>` the variable
+    defined once by `….GetTask(…)` (the task's CURRENT environment: its parent role's) and is NOT
+    derived from the event's labels (`GetEnvironmentIdFromLabelerType(evt)`, `GetLabels()`); the
+    variable that lookup defines is the receiver of every `CurrentState()` and `TryTransition(…)`
+    of the case; and the role that is told ERROR is `<t>.GetParent()` of the same `<t>`. Feeding
+    the lookup with the id parsed from the labels makes this theorem false. -/
+theorem C03_internal_env_is_code :
+    Gen.C03.internalEnvLookups = 1 ∧ Gen.C03.internalEnvByTask = codeCfg.envByTask ∧
+    Gen.C03.internalEnvByLabel = !codeCfg.envByTask ∧ Gen.C03.internalEnvIsTheOneUsed = true ∧
+    Gen.C03.internalRoleOfSameTask = true := by
+  decide
+
+/-- **The labels are irrelevant for a core that finds the environment through the task** (every
+    configuration with `envByTask`, the code as it is among them): for every world, kind, walk and
+    labelled snapshot the result is the unlabelled walk's — so every theorem of this file about
+    `hitAll` / `worldFail` holds whatever the messages' labels name; and two messages that differ
+    only in their label have the same effect. -/
+theorem C03_label_irrelevant (c : Cfg) (hc : c.envByTask = true) (wk : Walk) (k : Kind) (W : World)
+    (ts : List (Nat × RTask × Bool × Option Nat)) :
+    hitAllTagged wk c k W ts = hitAll wk c k W (untag ts) ∧
+    (∀ i t r lab lab', hitTagged c k W i t r lab = hitTagged c k W i t r lab') ∧
+    (∀ sc lab, worldFailTagged wk c k W sc lab = worldFail wk c k W sc) := by
+  refine ⟨hitAllTagged_byTask wk c hc k ts W, fun i t r lab lab' => ?_, fun sc lab => ?_⟩
+  · rw [hitTagged_byTask c hc, hitTagged_byTask c hc]
+  · unfold worldFailTagged worldFail
+    rw [hitAllTagged_byTask wk c hc]
+    simp [untag, List.map_map, Function.comp_def]
+
+/-- … in particular for the code as it is. -/
+theorem C03_label_irrelevant_code (wk : Walk) (k : Kind) (W : World) (ts : List (Nat × RTask × Bool × Option Nat)) :
+    hitAllTagged wk codeCfg k W ts = hitAll wk codeCfg k W (untag ts) :=
+  (C03_label_irrelevant codeCfg rfl wk k W ts).1
+
+/-- Why ordinary worlds cannot tell the two ways of resolving apart: as long as every task runs
+    in the environment it was launched for (label = owner) — and for every kind but
+    TASK_INTERNAL_ERROR whatever the labels — BOTH give the unlabelled walk. -/
+theorem C03_own_label_is_harmless (c : Cfg) (wk : Walk) (k : Kind) (W : World) (ts : List (Nat × RTask × Bool × Option Nat))
+    (h : k ≠ .INTERNAL ∨ ∀ x ∈ ts, x.2.2.2 = x.2.1.owner) :
+    hitAllTagged wk c k W ts = hitAll wk c k W (untag ts) := by
+  rcases h with h | h
+  · induction ts generalizing W with
+    | nil => rfl
+    | cons x ts ih =>
+      obtain ⟨i, t, r, lab⟩ := x
+      have h1 : hitTagged c k W i t r lab = hit c k W i t r := by
+        unfold hitTagged; cases k <;> first | rfl | exact absurd rfl h
+      simp only [hitAllTagged, untag, List.map_cons, hitAll, h1]
+      split
+      · rfl
+      · exact ih _
+  · exact hitAllTagged_own wk c k ts h W
+
+/-- FULL-STRENGTH statement with labels: every world, every kind that drives, every snapshot whose
+    entries carry ARBITRARY labels, every live environment `e` with a critical task among the
+    entries (`t.owner = some e`: the task's environment NOW), every interleaving of the internal
+    steps of all environments: once nothing is enabled, `e` is in ERROR. TRUE for the code
+    (`C03_tagged_critical_to_error_code`), FALSE for a core that looks the environment up by
+    the label (`C03_env_must_be_resolved_by_task`). -/
+def C03_tagged_critical_to_error_full (c : Cfg) : Prop :=
+  ∀ (W : World) (k : Kind) (ts : List (Nat × RTask × Bool × Option Nat)) (e : Nat) (s : Sys) (ls : List (Nat × Label)),
+    W.envs[e]? = some s → Live s → k.drives c s.env.st = true →
+    (∃ i t r lab, (i, t, r, lab) ∈ ts ∧ t.owner = some e ∧ critLeafAt s.f t.path = true) →
+    wvalid c (hitAllTagged codeWalk c k W ts) ls = true →
+    (s.chan = none ∨ rootHolds c (fail c k s (victimsFor e (untag ts))) (labelsOf e ls) = true) →
+    wquiescent (wrun c (hitAllTagged codeWalk c k W ts) ls) = true →
+    ∃ s', (wrun c (hitAllTagged codeWalk c k W ts) ls).envs[e]? = some s' ∧ s'.env.st = .ERROR
+
+/-- **A failed critical task of a live environment drives THAT environment to ERROR, whatever
+    the labels of the messages say** — the full-strength statement for the code as it is. -/
+theorem C03_tagged_critical_to_error_code : C03_tagged_critical_to_error_full codeCfg := by
+  intro W k ts e s ls hs hlive hk hcrit hv hprem hq
+  rw [C03_label_irrelevant_code] at hv hq ⊢
+  obtain ⟨i, t, r, lab, hm, ho, hc⟩ := hcrit
+  exact C03_roster_critical_to_error_code W k (untag ts) e s ls hs hlive hk
+    ⟨i, t, r, untag_mem ts i t r lab hm, ho, hc⟩ hv hprem hq
+
+/-- The same with no hypothesis about the kind (every failure but exit status 0,
+    TASK_INTERNAL_ERROR in any environment state and under any label included) and the step bound:
+    `e` takes at most budget + 3·|snapshot| + 2 internal steps. -/
+theorem C03_tagged_every_failure_to_error_code (W : World) (k : Kind) (ts : List (Nat × RTask × Bool × Option Nat))
+    (e : Nat) (s : Sys) (ls : List (Nat × Label)) (hs : W.envs[e]? = some s) (hlive : Live s) (hk : k.exitZero = false)
+    (hcrit : ∃ i t r lab, (i, t, r, lab) ∈ ts ∧ t.owner = some e ∧ critLeafAt s.f t.path = true)
+    (hv : wvalid codeCfg (hitAllTagged codeWalk codeCfg k W ts) ls = true) (hch : s.chan = none) :
+    (labelsOf e ls).length ≤ budget s + 3 * ts.length + 2 ∧
+    (wquiescent (wrun codeCfg (hitAllTagged codeWalk codeCfg k W ts) ls) = true →
+      ∃ s', (wrun codeCfg (hitAllTagged codeWalk codeCfg k W ts) ls).envs[e]? = some s' ∧ s'.env.st = .ERROR) := by
+  rw [C03_label_irrelevant_code] at hv ⊢
+  obtain ⟨i, t, r, lab, hm, ho, hc⟩ := hcrit
+  have h := (C03_roster_critical_to_error W k (untag ts) e s hs hlive (drives_code k s.env.st hk)
+    ⟨i, t, r, untag_mem ts i t r lab hm, ho, hc⟩).2.1 ls hv
+  rw [untag_length] at h
+  exact ⟨h.1, h.2 (Or.inl hch)⟩
+
+/-- An environment none of whose CRITICAL tasks failed stays where it is — whatever the labels
+    name, also the label of another environment's failing task that names THIS environment. -/
+theorem C03_tagged_noncritical_inert_code (k : Kind) (W : World) (ts : List (Nat × RTask × Bool × Option Nat)) (e : Nat) (s : Sys)
+    (hs : W.envs[e]? = some s)
+    (hplain : ∀ i t r lab, (i, t, r, lab) ∈ ts → t.owner = some e → plainLeafAt s.f t.path = true) :
+    ∃ s1, (hitAllTagged codeWalk codeCfg k W ts).envs[e]? = some s1 ∧
+      s1.env = s.env ∧ s1.w = s.w ∧ s1.chan = s.chan ∧ s1.inflight = s.inflight ∧ s1.stopReq = s.stopReq ∧
+      S s1.f = S s.f ∧ (∀ l, enabled s1 l = enabled s l) ∧ quiescent s1 = quiescent s := by
+  rw [C03_label_irrelevant_code]
+  refine C03_roster_noncritical_inert_code k W (untag ts) e s hs (fun i t r hm ho => ?_)
+  obtain ⟨⟨i', t', r', lab⟩, hx, he⟩ := List.mem_map.mp hm
+  simp only [Prod.mk.injEq] at he
+  obtain ⟨rfl, rfl, rfl⟩ := he
+  exact hplain _ _ _ lab hx ho
+
+/-- One CONFIGURED environment with a critical and a non-critical task; both in the roster. -/
+def wReused : World :=
+  { envs := [wConfigured],
+    roster := [{ owner := some 0, path := [0, 0], agent := 1, exec := 1 }, { owner := some 0, path := [0, 1], agent := 1, exec := 1 }] }
+
+/-- **The environment must be found through the task, not through the label**: for a core that
+    looks the environment up by the event's label, a critical task whose label names no
+    environment (launched for an earlier environment that is gone, or no label at all)
+    announces TASK_INTERNAL_ERROR — the lookup fails, the event is dropped, no internal step is
+    enabled: the environment keeps reporting CONFIGURED with its critical task in ERROR. -/
+theorem C03_env_must_be_resolved_by_task : ¬ C03_tagged_critical_to_error_full { codeCfg with envByTask := false } := by
+  intro h
+  obtain ⟨s', h1, h2⟩ := h wReused .INTERNAL [(0, { owner := some 0, path := [0, 0], agent := 1, exec := 1 }, true, none)] 0 wConfigured []
+    rfl wConfigured_live (by decide) ⟨0, _, true, none, List.mem_cons_self .., rfl, by decide⟩ (by decide) (Or.inl rfl) (by decide)
+  have h0 : (wrun { codeCfg with envByTask := false } (hitAllTagged codeWalk { codeCfg with envByTask := false } .INTERNAL wReused
+      [(0, { owner := some 0, path := [0, 0], agent := 1, exec := 1 }, true, none)]) []).envs[0]? = some wConfigured := rfl
+  rw [h0] at h1
+  cases h1
+  revert h2; decide
+
+/-- The pictures (non-vacuity of the labelled model). `wReused`, the critical task announces
+    TASK_INTERNAL_ERROR with a label that names no environment: the code as it is ends in ERROR
+    (role ERROR, status untouched); the label-resolving core does nothing at all. `wShared`
+    (environment 0 CONFIGURED, environment 1 RUNNING), label-resolving core: the critical task of
+    the RUNNING environment, labelled with the CONFIGURED one — its role is told, environment 1
+    goes to ERROR, but the run is not stopped first (transition bodies run in environment 1: one,
+    GO_ERROR; the code: two, STOP_ACTIVITY then GO_ERROR);
+    the critical task of the CONFIGURED environment, labelled with the RUNNING one — environment 0
+    goes to ERROR and the STOP request lands in environment 1: a healthy environment's run is
+    stopped because of another environment's task. The code as it is: environment 1 untouched. -/
+theorem C03_foreign_label_witness :
+    let byLabel : Cfg := { codeCfg with envByTask := false }
+    let a := wsettle codeCfg 16 (worldFailTagged codeWalk codeCfg .INTERNAL wReused (.task 0) none)
+    let b := worldFailTagged codeWalk byLabel .INTERNAL wReused (.task 0) none
+    let c1 := wsettle byLabel 16 (worldFailTagged codeWalk byLabel .INTERNAL wShared (.task 3) (some 0))
+    let c0 := wsettle codeCfg 16 (worldFailTagged codeWalk codeCfg .INTERNAL wShared (.task 3) (some 0))
+    let d1 := wsettle byLabel 16 (worldFailTagged codeWalk byLabel .INTERNAL wShared (.task 1) (some 1))
+    let d0 := wsettle codeCfg 16 (worldFailTagged codeWalk codeCfg .INTERNAL wShared (.task 1) (some 1))
+    (wquiescent a = true ∧ a.envs.map (·.env.st) = [.ERROR] ∧
+      a.envs.map (fun s => (leaves s.f).map (·.2)) = [[(.ERROR, .ACTIVE), (.CONFIGURED, .ACTIVE)]]) ∧
+    (wquiescent b = true ∧ b.envs.map (·.env.st) = [.CONFIGURED] ∧
+      b.envs.map (fun s => (leaves s.f).map (·.2)) = [[(.CONFIGURED, .ACTIVE), (.CONFIGURED, .ACTIVE)]]) ∧
+    (c1.envs.map (·.env.st) = [.CONFIGURED, .ERROR] ∧ c0.envs.map (·.env.st) = [.CONFIGURED, .ERROR] ∧
+      (c1.envs.map (fun s => (s.log.filter isBody).length)) = [0, 1] ∧ (c0.envs.map (fun s => (s.log.filter isBody).length)) = [0, 2]) ∧
+    (d1.envs.map (·.env.st) = [.ERROR, .CONFIGURED] ∧ d0.envs.map (·.env.st) = [.ERROR, .RUNNING] ∧
+      d1.envs.map (·.stopped) = [[], [[0, 0], [0, 1]]] ∧ d0.envs.map (·.stopped) = [[], []]) := by
+  decide
